@@ -170,10 +170,12 @@ func (t *Object) isSubType(target, sub Type) bool {
 	if typeEqual(target, sub) {
 		return true
 	}
-	if st, ok := sub.(*NonNull); ok && typeEqual(target, st.Base) {
-		// As a special case, if the interface expects type T and the
-		// implementation is T!, the implementation satisfies the interface.
-		return true
+	if st, ok := sub.(*NonNull); ok {
+		if _, nn := target.(*NonNull); !nn {
+			// If the interface expects a nullable type the implementation
+			// may return the non-null form of it or of one of its sub-types.
+			return t.isSubType(target, st.Base)
+		}
 	}
 	switch tt := target.(type) {
 	case *Union:
